@@ -26,7 +26,10 @@ T=$(cd $S && PYTHONPATH=$S/src timeout 1500 /venv/bin/python -m pytest -q -p no:
 fi
 RES=""
 for C in $CHECKS; do
-  R=$(cd ${VERIF_DIR:-/verif} && VERIF_REPO_ROOT=$S PYVC_FN_BUDGET=400 timeout 1500 python3-vt -m pyvc.run $C --norecord 2>&1 | grep -v WARNING | grep "^$C:\|^VIOLATION\|^UNVERIFIABLE" | head -8 | tr '\n' '|' | cut -c1-900)
+  LOGF=/tmp/vet/$ID.$C.log
+  (cd ${VERIF_DIR:-/verif} && VERIF_REPO_ROOT=$S PYVC_FN_BUDGET=400 timeout 1800 python3-vt -m pyvc.run $C --norecord 2>&1 | grep -v WARNING > $LOGF)
+  R=$( (grep "^$C:" $LOGF; grep "^VIOLATION\|^UNVERIFIABLE\|^UNDECIDED\|^MISSING\|^SELF" $LOGF | head -6) | tr '\n' '|' | cut -c1-1500)
+  rm -f $LOGF
   RES="$RES $R"
 done
 python3 - "$ID" "$P" "$D0" "$D1" "$T" "$RES" "$CHECKS" "$PORTED" <<'PY'
@@ -35,7 +38,7 @@ id_,p,d0,d1,t,res,checks,ported=sys.argv[1:9]
 m=re.findall(r'exit (\d)',res)
 meta={'id':id_,'breaks_property':p,'demo_exit_unmodified':int(d0),'demo_exit_with_patch':int(d1),'tests_without_admin_files':t.strip(),
       'checks_run':checks.split(),'check_output':res.strip(),'check_exit_codes':[int(x) for x in m],
-      'detected': any(x=='1' for x in m), 'ported': ported, 'what_i_ran':'tools/vet_seed.sh: patch applied to a scratch copy of /repo HEAD; demo.py on unmodified and patched tree; pytest without the two admin test files; ./check with VERIF_REPO_ROOT=<scratch>'}
+      'detected': any(x=='1' for x in m) or ('VIOLATION property=' in res), 'ported': ported, 'what_i_ran':'tools/vet_seed.sh: patch applied to a scratch copy of /repo HEAD; demo.py on unmodified and patched tree; pytest without the two admin test files; ./check with VERIF_REPO_ROOT=<scratch>'}
 json.dump(meta,open('/verif/seeded/%s/meta.json'%id_,'w'),indent=1)
 print(id_,'demo',d0,d1,'|',t.strip()[-40:],'| detected' if meta['detected'] else '| NOT detected', m)
 PY
